@@ -160,6 +160,7 @@ type fctx struct {
 	bufs    map[string]bool // identifiers denoting the line buffer pointer
 	retBool bool
 	lit     *ast.FuncLit // when interpreting a closure body
+	byValue bool         // the function receives the line as a slice and returns it
 }
 
 type retState struct {
@@ -237,6 +238,9 @@ func (it *Interp) fieldOf(e ast.Expr) *types.Var {
 
 // bufExpr: e denotes the line buffer *contents* (`*buf`, `h2.preformatted`); base is the owner ("" for a pointer variable).
 func (it *Interp) bufDeref(fc *fctx, e ast.Expr) (base string, ok bool) {
+	if id, isID := e.(*ast.Ident); isID && fc.bufs["="+id.Name] {
+		return "", true
+	}
 	switch x := e.(type) {
 	case *ast.StarExpr:
 		if id, isID := x.X.(*ast.Ident); isID && fc.bufs[id.Name] {
@@ -270,6 +274,9 @@ func (it *Interp) bufPass(fc *fctx, e ast.Expr) (base string, ok bool) {
 		}
 	case *ast.UnaryExpr:
 		if x.Op == token.AND {
+			if id, isID := x.X.(*ast.Ident); isID && fc.bufs["="+id.Name] {
+				return "", true
+			}
 			if sel, isSel := x.X.(*ast.SelectorExpr); isSel && it.cfg.PreField != nil && it.fieldOf(sel) == it.cfg.PreField {
 				b := exprString(sel.X)
 				return b, fc.bufs["&"+b]
@@ -690,6 +697,26 @@ func (it *Interp) stmt(fc *fctx, s ast.Stmt, in []State) flow {
 		return fl
 	case *ast.ReturnStmt:
 		fl := flow{}
+		if fc.byValue && len(x.Results) == 1 {
+			// `return append(buf, …)` / `return appendY(buf, …)`: the returned value is the line after that step
+			if call, isCall := ast.Unparen(x.Results[0]).(*ast.CallExpr); isCall && len(call.Args) > 0 {
+				if fn := it.calleeOf(call); fn != nil && it.byValueEmitter(fn) {
+					for _, r := range it.applyCall(fc, call, fn, in) {
+						fl.returns = append(fl.returns, retState{r.St, -1})
+					}
+					return fl
+				}
+				if base, isBuf := it.bufDeref(fc, call.Args[0]); isBuf {
+					for _, st := range it.emission(fc, call, base, in) {
+						fl.returns = append(fl.returns, retState{st, -1})
+					}
+					return fl
+				}
+			}
+			if _, isBuf := it.bufDeref(fc, x.Results[0]); !isBuf {
+				it.undecided(x.Pos(), "a by-value emitter returns something other than the line")
+			}
+		}
 		for _, st := range in {
 			if !fc.retBool || len(x.Results) == 0 {
 				fl.returns = append(fl.returns, retState{st, -1})
@@ -1132,6 +1159,13 @@ func (it *Interp) assign(fc *fctx, x *ast.AssignStmt, in []State) []State {
 			}
 			_ = base
 			if call, ok := x.Rhs[0].(*ast.CallExpr); ok {
+				if fn := it.calleeOf(call); fn != nil && it.byValueEmitter(fn) {
+					var out []State
+					for _, r := range it.applyCall(fc, call, fn, in) {
+						out = append(out, r.St)
+					}
+					return dedup(out)
+				}
 				return it.emission(fc, call, base, in)
 			}
 			it.undecided(x.Pos(), "the line buffer is assigned something that is not an append")
@@ -1611,6 +1645,9 @@ func (it *Interp) applyCall(fc *fctx, call *ast.CallExpr, fn *types.Func, in []S
 		return nil
 	}
 	base, ok := it.bufPass(fc, args[idx])
+	if it.byValueEmitter(fn) {
+		base, ok = it.bufDeref(fc, args[idx])
+	}
 	if !ok {
 		// an emitter called on some other buffer (scratch): no effect on the line
 		var out []callResult
@@ -1879,7 +1916,14 @@ func (it *Interp) ctxFor(fn *types.Func, decl *ast.FuncDecl) *fctx {
 			i = idx - 1
 		}
 		if i >= 0 && i < sig.Params().Len() {
-			fc.bufs[sig.Params().At(i).Name()] = true
+			prm := sig.Params().At(i)
+			if _, byValue := prm.Type().Underlying().(*types.Slice); byValue {
+				// the line received by value and returned extended (`func appendX(buf []byte, …) []byte`)
+				fc.bufs["="+prm.Name()] = true
+				fc.byValue = true
+			} else {
+				fc.bufs[prm.Name()] = true
+			}
 		}
 	}
 	return fc
@@ -1919,4 +1963,21 @@ func (it *Interp) SummaryOf(fn *types.Func, s int, boolArgs map[string]bool) []O
 	}
 	sort.Strings(ks)
 	return it.summary(fn, decl, s, boolArgs, strings.Join(ks, ","))
+}
+
+// byValueEmitter: fn is an emitter that receives the line as a slice value (and returns the extended slice).
+func (it *Interp) byValueEmitter(fn *types.Func) bool {
+	idx, ok := it.cfg.BufParam[fn]
+	if !ok {
+		return false
+	}
+	sig := fn.Type().(*types.Signature)
+	if sig.Recv() != nil {
+		idx--
+	}
+	if idx < 0 || idx >= sig.Params().Len() {
+		return false
+	}
+	_, isSlice := sig.Params().At(idx).Type().Underlying().(*types.Slice)
+	return isSlice
 }
